@@ -1150,6 +1150,14 @@ class Suspender(Interrupter):
 
         framer = main.framer #to speed up
 
+        if (aux.done and aux.actives and
+                (not aux.original or aux.main is self._act.frame)):
+            # marked done from outside (done verb) while running as conditional
+            # aux of this frame so exit it and resume suspended frames
+            self.deactivate(aux)
+            framer.reactivate()
+            return None
+
         if aux.done: #not active
 
             console.profuse("Attempt segue from {0} to aux {1}\n".format(main.name, aux.name))
